@@ -8,6 +8,8 @@ import implutil
 
 payload = implutil.begin()
 logging.disable(logging.CRITICAL)
+import random  # noqa: E402
+random.seed(20260923)     # /repo draws its uuids (hence the hashes of Task/Worker/...) from `random`: fix them
 
 from schedulers import ClockworkScheduler  # noqa: E402
 from schedulers.clockwork_scheduler import Model  # noqa: E402
